@@ -399,6 +399,10 @@ type Block struct {
 	// storage write (see C09's garbage shape key)
 	LeakShape bool
 
+	// RemovedDirty: inside this block an account had a storage write and was then removed successfully (possible
+	// only when the changed data trie is empty or back at a committed root), see C09's second garbage shape key
+	RemovedDirty bool
+
 	// Empty: the block changed no account at all (CommitEmpty); its root equals its parent's root
 	Empty bool
 
@@ -633,6 +637,7 @@ func (w *World) Commit(rng *vk.Rand, initial bool, restore *Block) (*Block, erro
 	storTouched := map[string]bool{}  // accounts with a storage write in this block
 	removedDirty := map[string]bool{} // ... that were removed afterwards
 	leakShape := false
+	removedDirtyAny := false
 	var script []Prim
 	for j := 0; j < nMut; j++ {
 		ai := rng.Intn(len(Addrs))
@@ -646,6 +651,7 @@ func (w *World) Commit(rng *vk.Rand, initial bool, restore *Block) (*Block, erro
 				delete(nb, string(a))
 				if storTouched[string(a)] {
 					removedDirty[string(a)] = true
+					removedDirtyAny = true
 				}
 				desc = append(desc, fmt.Sprintf("rm A%d", ai))
 				w.Counts["acct_remove"]++
@@ -809,7 +815,7 @@ func (w *World) Commit(rng *vk.Rand, initial bool, restore *Block) (*Block, erro
 	if script == nil {
 		script = []Prim{}
 	}
-	b := &Block{Height: w.height, Root: cp(root), Accts: nb, Desc: strings.Join(desc, "; "), LeakShape: leakShape, Script: script}
+	b := &Block{Height: w.height, Root: cp(root), Accts: nb, Desc: strings.Join(desc, "; "), LeakShape: leakShape, RemovedDirty: removedDirtyAny, Script: script}
 	if leakShape {
 		w.Counts["blocks_with_storage_change+remove+recreate"]++
 	}
@@ -926,7 +932,7 @@ func (w *World) Recommit(orig *Block) (*Block, error) {
 	if !bytes.Equal(root, orig.Root) {
 		return nil, fmt.Errorf("re-processed block has root %x, the first processing gave %x", root[:4], orig.Root[:4])
 	}
-	b := &Block{Height: w.height, Root: cp(root), Accts: nb, Desc: "re-processed identical block [" + orig.Desc + "]", LeakShape: orig.LeakShape, Script: orig.Script}
+	b := &Block{Height: w.height, Root: cp(root), Accts: nb, Desc: "re-processed identical block [" + orig.Desc + "]", LeakShape: orig.LeakShape, RemovedDirty: orig.RemovedDirty, Script: orig.Script}
 	b.Hdr = &block.Header{Nonce: w.height, Round: w.height, RootHash: cp(root)}
 	w.height = b.Height + 1
 	w.Chain = append(w.Chain, b)
